@@ -17,7 +17,7 @@ from pathlib import Path
 
 VERIF = Path(__file__).resolve().parents[1]
 sys.path.insert(0, str(VERIF))
-from translate.resolve import Flow      # noqa: E402
+from translate.resolve import Flow, helper_inliner as generic_inliner      # noqa: E402
 REPO = Path(os.environ.get('HOMONIM_REPO', '/repo'))
 OUT = VERIF / 'coq' / 'gen' / 'Blocks.v'
 
@@ -268,14 +268,13 @@ def overlap_part(ut, fu, cm, out):
     out.append('Definition gen_overlap_for_kernel (k : Z) : Z := - ((- k) / 2).      (* np.ceil(k / 2) *)')
     # ---- fuse.process: the overlap handed to block_pairs, with partial masking off / on
     f = find_func(fu, 'RasterFuse', 'process')
-    fl = Flow(f)
+    fl = Flow(f, module=fu, inline=generic_inliner(fu, 'RasterFuse', keep=('read', 'block_pairs', '_process_block', '_out_files'), allow_loops=True))
     ks_p = fl.params[3]
-    calls = [n for n in ast.walk(f) if isinstance(n, ast.Call) and U(n.func) == 'self.block_pairs']
+    calls = fl.calls(lambda c: U(c.func) == 'self.block_pairs')
     if not calls:
         raise TranslatorError('process: no call of self.block_pairs')
     passed = set()
-    for c in calls:
-        r = fl.resolve(c, fl.stmt_of(c))
+    for r in calls:
         kwd = {}
         for k in r.keywords:
             if k.arg is None and isinstance(k.value, ast.Call) and U(k.value.func) == 'dict':
@@ -411,6 +410,8 @@ class ZExprN:
             if op is None:
                 raise TranslatorError(f'unsupported operator in {txt}')
             return f'({self.tr(n.left)} {op} {self.tr(n.right)})'
+        if isinstance(n, ast.Call) and U(n.func) in ('np.add', 'np.subtract', 'np.multiply') and len(n.args) == 2 and not n.keywords:
+            return f'({self.tr(n.args[0])} {dict(add="+", subtract="-", multiply="*")[U(n.func)[3:]]} {self.tr(n.args[1])})'
         raise TranslatorError(f'unsupported expression: {txt[:160]}')
 
 
@@ -430,31 +431,55 @@ def generate():
     bounded_part(ra, out)
     layout_part(fu, ut, out)
     f = find_func(fu, 'RasterFuse', '_set_param_metadata')
-    loops = [n for n in ast.walk(f) if isinstance(n, ast.For) and ast.unparse(n.iter) == 'zip(range(bi, im.count, num_src_bands), param_names)']
-    names_ok = ast.unparse(one_assign(f, 'param_names')) == "['GAIN', 'OFFSET', 'R2']" and ast.unparse(one_assign(f, 'num_src_bands')) == 'len(self.src_bands)'
+    flm_ = Flow(f, module=fu)
+    loops = [n for n in ast.walk(f) if isinstance(n, ast.For) and canon(flm_.text(n.iter, n)).replace('(', '[', 0) in (
+        "zip(range(bi, im.count, len(self.src_bands)), ['GAIN', 'OFFSET', 'R2'])", "zip(range(bi, im.count, len(self.src_bands)), ('GAIN', 'OFFSET', 'R2'))")]
+    names_ok = len(loops) == 1
     desc_ok = any(ast.unparse(c) == "im.set_band_description(param_i + 1, f'{ref_descr}_{param_name}')" for n in loops for c in ast.walk(n) if isinstance(c, ast.Call))
     out.append(f'Definition gen_labels_ok : bool := {"true" if len(loops) == 1 and names_ok and desc_ok else "false"}.   (* band bi + k * n (0-based) is labelled with parameter k *)')
-    f = find_func(ut, None, 'validate_param_image')
-    suf = ast.unparse(one_assign(f, 'suffixes'))
-    nr = ast.unparse(one_assign(f, 'n_refl_bands'))
+    def the_assign(tree, target):
+        v_ = [n_.value for n_ in ast.walk(tree) if isinstance(n_, ast.Assign) and len(n_.targets) == 1 and ast.unparse(n_.targets[0]) == target]
+        if len(v_) != 1:
+            raise TranslatorError(f'validate_param_image: expected exactly one assignment to {target} in utils.py, found {len(v_)}')
+        return v_[0]
+    suf = ast.unparse(the_assign(ut, 'suffixes'))
+    nr = ast.unparse(the_assign(ut, 'n_refl_bands'))
     okv = suf == "['gain'] * n_refl_bands + ['offset'] * n_refl_bands + ['r2'] * n_refl_bands" and nr == 'int(param_im.count / 3)'
     out.append(f'Definition gen_validator_ok : bool := {"true" if okv else "false"}.     (* suffix of 0-based band j is parameter j / n *)')
     # ---- partial masking: coverage threshold, structuring element, border
     km = ast.parse((REPO / 'homonim' / 'kernel_model.py').read_text())
     f = find_func(km, 'KernelModel', '_full_coverage_mask')
-    se = one_assign(f, 'se')
-    z = ZExprN({'np.array(self._kernel_shape[::-1])': 'k'})
-    if not (isinstance(se, ast.Call) and ast.unparse(se.func) == 'cv.getStructuringElement' and ast.unparse(se.args[0]) == 'cv.MORPH_RECT'
-            and isinstance(se.args[1], ast.Call) and ast.unparse(se.args[1].func) == 'tuple'):
+    fl = Flow(f, module=km)
+    in_p, par_p = fl.params[1], fl.params[2]
+    rets = [n for n in ast.walk(f) if isinstance(n, ast.Return) and n.value is not None]
+    if len(rets) != 1:
+        raise TranslatorError('_full_coverage_mask: one return expected')
+    ret = fl.text(rets[0].value, rets[0])
+    er = [(st, v) for (st, t, k, v) in fl.stores() if k == 'assign' and t == f'{ret}.array']
+    if len(er) != 1 or not (isinstance(er[0][1], ast.Call) and U(er[0][1].func) == 'cv.erode' and len(er[0][1].args) == 2):
+        raise TranslatorError('_full_coverage_mask: the returned mask is not an erosion')
+    ecall = er[0][1]
+    se = ecall.args[1]
+    if not (isinstance(se, ast.Call) and U(se.func) == 'cv.getStructuringElement' and U(se.args[0]) == 'cv.MORPH_RECT'
+            and isinstance(se.args[1], ast.Call) and U(se.args[1].func) == 'tuple'):
         raise TranslatorError('_full_coverage_mask: structuring element')
+    # the kernel shape: the configured one, or a parameter that defaults to it
+    ks = {'self._kernel_shape'} | {p_ for p_, d in fl.default_of.items() if U(d) == 'self._kernel_shape'}
+    names = {}
+    for k_ in ks:
+        for form in (f'{k_}[::-1]', f'tuple({k_})[::-1]', f'tuple({k_}[::-1])', f'list({k_})[::-1]'):
+            names[f'np.array({form})'] = 'k'
+            names[form] = 'k'
+    z = ZExprN(names)
     out.append(f'Definition gen_erode_size (k : Z) : Z := {z.tr(se.args[1].args[0])}.     (* per axis; OpenCV order (x, y) = kernel_shape[::-1] *)')
-    er = ast.unparse(one_assign(f, 'mask_ra.array'))
-    cov = ast.unparse(one_assign(f, 'mask'))
-    amp = [n for n in ast.walk(f) if isinstance(n, ast.AugAssign) and ast.unparse(n.target) == 'mask' and isinstance(n.op, ast.BitAnd)]
-    rp = ast.unparse(one_assign(f, 'mask_ra'))
-    oke = er == 'cv.erode(mask, se, borderType=cv.BORDER_CONSTANT, borderValue=0)' and cov == "(mask_ra.array >= 1).astype('uint8', copy=False)" \
-        and len(amp) == 1 and ast.unparse(amp[0].value) == 'param_ra.mask' \
-        and rp == 'in_mask_ra.reproject(**param_ra.proj_profile, nodata=None, resampling=Resampling.average)'
+    m = ecall.args[0]
+    ekw = {k.arg: U(k.value) for k in ecall.keywords}
+    oke = ekw == {'borderType': 'cv.BORDER_CONSTANT', 'borderValue': '0'} and isinstance(m, ast.BinOp) and isinstance(m.op, ast.BitAnd)
+    if oke:
+        parts = sorted([canon(U(m.left)), canon(U(m.right))], key=lambda t: t.startswith('('))
+        cov_ok = parts[1].startswith(f'({ret}.array >= 1).astype(') and ("'uint8'" in parts[1] or 'np.uint8' in parts[1])
+        oke = parts[0] == f'{par_p}.mask' and cov_ok and \
+            ret == f'{in_p}.reproject(**{par_p}.proj_profile, nodata=None, resampling=Resampling.average)'
     out.append(f'Definition gen_partial_mask_ok : bool := {"true" if oke else "false"}.   (* average coverage >= 1, and joint mask, zero border *)')
     # ---- RasterArray._convert_array_dtype: round (half to even), clip, cast, re-mask - in that order, under these conditions
     f = find_func(ra, 'RasterArray', '_convert_array_dtype')
@@ -477,7 +502,7 @@ def generate():
     # ---- utils.same_orientation_crs: which image is viewed through a WarpedVRT, as boolean functions of
     #      (source north-up, reference north-up, same CRS, processing grid = source)
     f = find_func(ut, None, 'same_orientation_crs')
-    fl = Flow(f, inline=module_inliner(ut, None, keep=('north_up',)))
+    fl = Flow(f, module=ut, assume_defaults=('resampling',), inline=generic_inliner(ut, None, keep=('north_up',), local_to=f))
     sI, rI, pC = fl.params[0], fl.params[1], fl.params[2]
 
     def btr(n):
@@ -542,7 +567,20 @@ def generate():
         raise TranslatorError('MatchedPairReader._max_rel_wavelength_diff')
     out.append(f'Definition gen_max_rel_wavelength_diff : float := {float(tol[0].value).hex()}%float.')
     f = find_func(mp, 'MatchedPairReader', '_get_band_info')
-    rgb = one_assign(f, 'std_rgb_cws')
+    def rgb_tables(tree):
+        found = []
+        for n_ in ast.walk(tree):
+            v_ = n_.value if isinstance(n_, (ast.Assign, ast.AnnAssign)) and getattr(n_, 'value', None) is not None else None
+            if v_ is None:
+                continue
+            t_ = ast.unparse(v_)
+            if 'ColorInterp.red' in t_ and 'ColorInterp.green' in t_ and 'ColorInterp.blue' in t_ and (isinstance(v_, ast.Dict) or t_.startswith('dict(zip([')):
+                found.append(v_)
+        return found
+    tabs = rgb_tables(mp)
+    if len(tabs) != 1:
+        raise TranslatorError(f'standard RGB centre wavelengths: {len(tabs)} tables found')
+    rgb = tabs[0]
     txt = ast.unparse(rgb)
     if isinstance(rgb, ast.Dict):
         pairs = {ast.unparse(k_): v_ for k_, v_ in zip(rgb.keys, rgb.values)}
@@ -555,7 +593,7 @@ def generate():
     vals = [float(ast.literal_eval(pairs[k_])) for k_ in ('ColorInterp.red', 'ColorInterp.green', 'ColorInterp.blue')]
     for nm, v in zip(('red', 'green', 'blue'), vals):
         out.append(f'Definition gen_std_cw_{nm} : float := {v.hex()}%float.')
-    use = [n for n in ast.walk(f) if isinstance(n, ast.If) and ast.unparse(n.test) == 'len(non_alpha_bands) == 3']
+    use = [n for n in ast.walk(f) if isinstance(n, ast.If) and ast.unparse(n.test) in ('len(non_alpha_bands) == 3', '3 == len(non_alpha_bands)')]
     out.append(f'Definition gen_rgb_defaults_only_for_three_bands : bool := {"true" if len(use) == 1 else "false"}.')
     # the over-tolerance test: strictly greater than the tolerance, on the matched distances
     fm = find_func(mp, 'MatchedPairReader', '_match_pair_bands')
